@@ -114,27 +114,53 @@ func VerifC08Hunk() {
 func VerifC08Keyed() {
 	n := vChoice(vParam("N", 2) + 1)
 	c := make(jsonArray, n)
+	// identity of a member: a number, null, or no "id" key at all
+	idKind := make([]int, n)
 	ids := make([]float64, n)
 	vals := make([]float64, n)
+	nkinds := 1 + 2*vParam("IDKINDS", 1)
 	for i := range c {
+		idKind[i] = vChoice(nkinds)
 		ids[i], vals[i] = vF64(), vF64()
-		for j := 0; j < i; j++ {
-			vAssume(ids[i] != ids[j])
+		o := jsonObject{"v": jsonNumber(vals[i])}
+		switch idKind[i] {
+		case 0:
+			o["id"] = jsonNumber(ids[i])
+		case 1:
+			o["id"] = jsonNull(nil)
 		}
-		c[i] = jsonObject{"id": jsonNumber(ids[i]), "v": jsonNumber(vals[i])}
+		c[i] = o
 	}
+	// the path addresses a number or null identity
+	pathKind := vChoice(1 + vParam("IDKINDS", 1))
 	id := vF64()
+	var pid JsonNode = jsonNumber(id)
+	if pathKind == 1 {
+		pid = jsonNull(nil)
+	}
+	matches := func(i int) bool {
+		if pathKind == 1 {
+			return idKind[i] == 1
+		}
+		return idKind[i] == 0 && ids[i] == id
+	}
+	// "the object matching the keys": at most one member matches
+	for i := range c {
+		for j := 0; j < i; j++ {
+			vAssume(!(matches(i) && matches(j)))
+		}
+	}
 	r, a := vF64(), vF64()
 	// nested change: replace v (remove r, add a), or remove v, or add a new key w
 	kind := vChoice(3)
 	var h DiffElement
 	switch kind {
 	case 0:
-		h = DiffElement{Path: Path{PathSetKeys{"id": jsonNumber(id)}, PathKey("v")}, Remove: []JsonNode{jsonNumber(r)}, Add: []JsonNode{jsonNumber(a)}}
+		h = DiffElement{Path: Path{PathSetKeys{"id": pid}, PathKey("v")}, Remove: []JsonNode{jsonNumber(r)}, Add: []JsonNode{jsonNumber(a)}}
 	case 1:
-		h = DiffElement{Path: Path{PathSetKeys{"id": jsonNumber(id)}, PathKey("v")}, Remove: []JsonNode{jsonNumber(r)}}
+		h = DiffElement{Path: Path{PathSetKeys{"id": pid}, PathKey("v")}, Remove: []JsonNode{jsonNumber(r)}}
 	default:
-		h = DiffElement{Path: Path{PathSetKeys{"id": jsonNumber(id)}, PathKey("w")}, Add: []JsonNode{jsonNumber(a)}}
+		h = DiffElement{Path: Path{PathSetKeys{"id": pid}, PathKey("w")}, Add: []JsonNode{jsonNumber(a)}}
 	}
 	if vKnown("hash.alias") {
 		vAssumeNoHashAlias(c, c)
@@ -143,7 +169,7 @@ func VerifC08Keyed() {
 	// reference
 	match := -1
 	for i := range c {
-		if ids[i] == id {
+		if matches(i) {
 			match = i
 		}
 	}
